@@ -51,11 +51,25 @@ pub fn check_session(
         return Outcome::Discard;
     }
     let prefix = &forms[..ri.comparable.min(forms.len())];
-    let runs = [
+    let mut runs = vec![
         ("fresh", RunOpts::default()),
         ("fresh2", RunOpts::default()),
         ("polluted", RunOpts { pollute: true, ..RunOpts::default() }),
     ];
+    if id == "C05" {
+        // continuations keep frames and environments alive that nothing else references: the
+        // same session once more with collections forced at pseudo-random instructions (a
+        // function of the program text) and after every form
+        let state = mwv_core::choice::fnv(render_session(forms).as_bytes()) | 1;
+        runs.push((
+            "collected",
+            RunOpts {
+                schedule: marwood::vm::verif::GcSchedule::Random { state, num: 1, den: 5 },
+                gc_between_forms: true,
+                ..RunOpts::default()
+            },
+        ));
+    }
     let mut failure: Option<(String, String)> = None;
     let mut compared = 0;
     for (name, opts) in runs.iter() {
